@@ -12,7 +12,7 @@ Single == {"one", "expr", "semi", "cmt"}
 
 Multi  == {"ml2", "mlx2", "ml3", "cmp2", "cmp3", "deco3"}
 StyleOf(shape) == IF shape = "pair2" THEN {"c"} ELSE IF shape \in Single \cup {"star", "asg", "echo", "prn", "exc"} \cup {"tri3", "braw3", "badone", "trunc2"} THEN {"a"}
-                  ELSE IF shape \in {"cmp2", "cmp3", "deco3"} THEN {"a", "c", "t"} ELSE {"a", "c"}
+                  ELSE IF shape \in {"cmp2", "cmp3", "deco3", "cmpq2"} THEN {"a", "c", "t"} ELSE {"a", "c"}
 Stmts(inds, shapes, dirs) == {St(i, s, y, d) : i \in inds, s \in shapes, y \in {"a", "c", "t"}, d \in dirs} \ 
                              {b \in [t : {"stmt"}, ind : inds, n : {0}, shape : shapes, style : {"a", "c", "t"}, dir : dirs] : b.style \notin StyleOf(b.shape)}
 
@@ -50,6 +50,8 @@ C20_Blocks == {Ex("asg", "a", 0, "none"), Ex("cmt", "a", 0, "none"), Ex("echo", 
                Ex("cmp3", "c", 1, "none"), Ex("deco3", "c", 1, "none"), Ex("deco3", "t", 1, "none"), Ex("ml3", "c", 1, "none"),
                Ex("one", "a", 1, "first"), Ex("echo", "a", 1, "first"), Ex("prn", "a", 2, "none"),
                Ex("one", "a", 1, "opt"), Ex("prn", "a", 2, "opt"), Ex("exc", "a", 2, "opt"),
+               \* examples over several lines that print nothing (no want), with and without an option comment
+               Ex("cmpq2", "c", 0, "none"), Ex("cmpq2", "c", 0, "opt"), Ex("mlq2", "c", 0, "opt"), Ex("cmpq2", "t", 0, "opt"),
                Txt(0, 1), Blank}
 
 \* ---- C14: malformed building blocks among good ones
